@@ -466,9 +466,19 @@ func c13Child(t *tr.Writer, e *callsEnv, c callsCase) {
 		}
 		// the limit is lowered while the client's connection is established: it holds for the next request
 		if half := limit / 2; half >= 16 {
+			// (a refused request ends its connection: a small request first, so that a connection is
+			// established under the old limit)
+			small := append([]byte("RAW:"), pattern("random", 8, c.Seed+2)...)
+			t.Emit(tr.Rec{"ev": "req", "n": len(small), "limit": limit, "decl": "truthful"})
+			_, err0 := rawRequest(cl, small)
+			d0 := ""
+			if err0 != nil {
+				d0 = err0.Error()
+			}
+			t.Emit(tr.Rec{"ev": "ret", "kind": errKind(err0), "detail": d0})
 			e.svc.MaxRequestLength = half
 			time.Sleep(2 * time.Millisecond)
-			for _, n := range []int{half - 1, half, half + 1, limit} {
+			for _, n := range []int{half + 1, half - 1, half, limit} {
 				payload := append([]byte("RAW:"), pattern("random", n-4, c.Seed+1)...)
 				t.Emit(tr.Rec{"ev": "req", "n": n, "limit": half, "decl": "truthful"})
 				_, err := rawRequest(cl, payload)
